@@ -216,16 +216,21 @@ func (w *World) relevant(v *view, it *Item) bool {
 }
 
 func (w *World) relevantItems(v *view, partitioned func(from, to int) bool) []*Item {
+	split := partitioned != nil && w.Cfg.Attack == "split"
 	var out []*Item
 	for _, h := range []int64{v.rs.Height, v.rs.Height - 1} {
 		for _, it := range w.pool.byH[h] {
 			if it.Kind == kRaw {
 				continue
 			}
-			if it.Kind == kClaim && partitioned != nil && partitioned(it.Signer, v.nd.id) {
+			if it.Kind == kClaim && !split && partitioned != nil && partitioned(it.Signer, v.nd.id) {
 				continue
 			}
-			if partitioned != nil && it.Signer >= 0 && partitioned(it.Signer, v.nd.id) {
+			if split {
+				if w.splitBlocks(it, v.nd.id) {
+					continue
+				}
+			} else if partitioned != nil && it.Signer >= 0 && partitioned(it.Signer, v.nd.id) {
 				continue
 			}
 			if w.relevant(v, it) {
